@@ -710,36 +710,14 @@ class Parser:
         if isinstance(tree, ast.Constant) and isinstance(cmd, TokenInfo):
             return ast.Constant(value=tree.value + cmd.string, **locs, **cmd.loc_end())
 
-        # prefix@(...)
-        if isinstance(tree, ast.Constant) and isinstance(cmd, ast.Starred):
-            return ast.Tuple(
-                elts=[tree, cmd],
-                ctx=Load,
-                **locs,
-                end_lineno=cmd.end_lineno,
-                end_col_offset=cmd.end_col_offset,
-            )
-        # @(...)suffix
-        if isinstance(tree, ast.Starred | ast.Tuple) and isinstance(cmd, TokenInfo):
-            suffix = ast.Constant(value=cmd.string, **cmd.loc())
-            elts = [*tree.elts, suffix] if isinstance(tree, ast.Tuple) else [tree, suffix]
-            return ast.Tuple(elts=elts, ctx=Load, **locs, **cmd.loc_end())
-        # prefix@(...)suffix
-        if isinstance(tree, ast.Tuple) and isinstance(cmd, TokenInfo):
-            return ast.Tuple(
-                elts=[*tree.elts, ast.Constant(value=cmd.string, **cmd.loc())],
-                ctx=Load,
-                **locs,
-                **cmd.loc_end(),
-            )
-        return ast.BinOp(
-            left=tree,
-            op=ast.Add(),
-            right=ast.Constant(value=cmd.string, **cmd.loc()) if isinstance(cmd, TokenInfo) else cmd,
-            **locs,
-            end_lineno=cmd.end_lineno if isinstance(cmd, ast.AST) else cmd.end[0],
-            end_col_offset=cmd.end_col_offset if isinstance(cmd, ast.AST) else cmd.end[1],
-        )
+        right = ast.Constant(value=cmd.string, **cmd.loc()) if isinstance(cmd, TokenInfo) else cmd
+        end = {"end_lineno": right.end_lineno, "end_col_offset": right.end_col_offset}
+        # prefix@(...), @(...)suffix, $X@(...), @(...)`glob` ...: a starred piece cannot be an operand of `+`,
+        # so whatever is glued to it is kept side by side in a tuple
+        if isinstance(tree, ast.Starred | ast.Tuple) or isinstance(right, ast.Starred):
+            elts = [*tree.elts, right] if isinstance(tree, ast.Tuple) else [tree, right]
+            return ast.Tuple(elts=elts, ctx=Load, **locs, **end)
+        return ast.BinOp(left=tree, op=ast.Add(), right=right, **locs, **end)
 
     def _proc_args(self, args: list[TokenInfo | ast.expr]) -> Iterator[ast.AST]:
         """split into chunks if they are not contiguous."""
